@@ -234,7 +234,9 @@ func (d *Downstream) ReadMetadata(ctx context.Context) (*DownstreamMetadata, err
 			ResultCode:   message.ResultCodeSucceeded,
 			ResultString: "OK",
 		}); err != nil {
-			return nil, err
+			// the item has been taken from the queue: it is delivered all the same (during an outage its
+			// acknowledgement is lost with the connection, the item must not be)
+			d.logger.Warnf(ctx, "failed to send downstream metadata ack: %+v", err)
 		}
 		return &DownstreamMetadata{
 			SourceNodeID: meta.SourceNodeID,
